@@ -88,11 +88,11 @@ theorem updTable_lenInv {d} {s : Schema} (n : Name) (f : Table → Table) (hf : 
   · intro t ht hs
     simp only [updTable, List.mem_map] at ht
     obtain ⟨t0, ht0, rfl⟩ := ht
-    split at hs
-    · have := h.tables t0 ht0 (by simpa [hf] using hs)
-      simpa using this
-    · simpa using h.tables t0 ht0 hs
-    all_goals (split <;> simp_all)
+    by_cases hc : (t0.name == n) = true
+    · simp only [hc, if_true] at hs ⊢
+      exact h.tables t0 ht0 (by simpa [hf] using hs)
+    · simp only [hc] at hs ⊢
+      exact h.tables t0 ht0 hs
   · simpa using h.columns
   · simpa using h.indexes
   · simpa using h.fks
@@ -207,51 +207,270 @@ theorem nameTaken_false {s : Schema} {n : Option Name} (h : nameTaken s n = fals
   intro x hx; subst hx
   simpa [nameTaken] using h
 
+theorem setPk_inv {s : Schema} (t : Name) (k : PkKind) (h : Inv s) : Inv (setPk s t k) := by
+  unfold setPk; split
+  · exact updTable_inv _ _ h
+  · exact h
+theorem setPk_lenInv {d} {s : Schema} (t : Name) (k : PkKind) (h : LenInv d s) : LenInv d (setPk s t k) := by
+  unfold setPk; split
+  · exact updTable_lenInv _ _ (fun _ => rfl) h
+  · exact h
+@[simp] theorem setPk_names (s t k) : (setPk s t k).names = s.names := by unfold setPk; split <;> rfl
+@[simp] theorem setPk_columns (s t k) : (setPk s t k).columns = s.columns := by unfold setPk; split <;> rfl
+@[simp] theorem setPk_indexes (s t k) : (setPk s t k).indexes = s.indexes := by unfold setPk; split <;> rfl
+@[simp] theorem setPk_fks (s t k) : (setPk s t k).fks = s.fks := by unfold setPk; split <;> rfl
+@[simp] theorem setPk_tableNames (s t k) : tableNames (setPk s t k) = tableNames s := by
+  unfold setPk; split
+  · simp
+  · rfl
+
+theorem flagColumns_keys (cs : List Column) (t cols k u) :
+    (flagColumns cs t cols k u).map (fun c => (c.table, c.name)) = cs.map (fun c => (c.table, c.name)) := by
+  simp only [flagColumns, List.map_map]
+  apply List.map_congr_left
+  intro c _
+  simp only [Function.comp]
+  split <;> rfl
+
+theorem flagColumns_mem {cs : List Column} {t cols k u} {c : Column} (h : c ∈ flagColumns cs t cols k u) :
+    ∃ c0 ∈ cs, c.name = c0.name ∧ c.src = c0.src ∧ c.table = c0.table := by
+  simp only [flagColumns, List.mem_map] at h
+  obtain ⟨c0, h0, rfl⟩ := h
+  refine ⟨c0, h0, ?_⟩
+  split <;> simp
+
 theorem commitIndex_inv {s : Schema} {t nm cols isPk uniq} (h : Inv s)
     (hn : ∀ x, nm.map (·.1) = some x → x ∉ s.names) : Inv (commitIndex s t nm cols isPk uniq) := by
-  have h1 : Inv (if isPk ≠ .no then updTable s t (fun t => { t with pkSet := true }) else s) := by
-    split
-    · exact updTable_inv _ _ h
-    · exact h
-  have hnames : (if isPk ≠ .no then updTable s t (fun t => { t with pkSet := true }) else s).names = s.names := by
-    split <;> rfl
-  generalize (if isPk ≠ .no then updTable s t (fun t => { t with pkSet := true }) else s) = s1 at h1 hnames
-  unfold commitIndex
+  have h1 := setPk_inv t isPk h
   constructor
-  · exact h1.tablesNodup
-  · have : (List.map (fun c => (c.table, c.name)) (List.map (fun (c : Column) =>
-        if (c.table == t && cols.contains c.name) = true then
-          { c with isPk := orPk c.isPk (if (cols.length == 1) = true then isPk else .no),
-                   isPkPart := c.isPkPart || (isPk != .no),
-                   isUnique := c.isUnique || (uniq && (cols.length == 1)) }
-        else c) s1.columns)) = colKeys s1 := by
-      simp only [colKeys, List.map_map]
-      apply List.map_congr_left
-      intro c _
-      simp only [Function.comp]
-      split <;> rfl
-    simp only [colKeys]
-    first
-      | (rw [this]; exact h1.colsNodup)
-      | (simp only [colKeys] at this h1; sorry)
+  · simpa [commitIndex, tableNames] using h1.tablesNodup
+  · simp only [commitIndex, colKeys, flagColumns_keys]
+    simpa [colKeys] using h.colsNodup
   · cases nm with
-    | none => simpa using h1.namesNodup
+    | none => simpa [commitIndex] using h.namesNodup
     | some p =>
-      simp only [Option.map_some, Option.toList_some]
+      simp only [commitIndex, setPk_names, Option.map_some, Option.toList_some]
       rw [List.nodup_append]
-      refine ⟨h1.namesNodup, by simp, ?_⟩
+      refine ⟨h.namesNodup, by simp, ?_⟩
       intro a ha b hb
       simp at hb; subst hb
       intro hab; subst hab
-      exact hn _ rfl (hnames ▸ ha)
+      exact hn _ rfl ha
   · intro a
     have := h1.namesCount a
     cases nm with
-    | none => simpa [objNames, List.count_append, List.filterMap_append] using this
+    | none =>
+      simp only [objNames, commitIndex, List.count_append, List.filterMap_append, Option.map_none, Option.toList_none,
+        List.filterMap_cons, List.filterMap_nil, List.append_nil, List.count_nil] at this ⊢
+      omega
     | some p =>
-      simp only [objNames, List.count_append, List.filterMap_append, Option.map_some, Option.toList_some,
+      simp only [objNames, commitIndex, List.count_append, List.filterMap_append, Option.map_some, Option.toList_some,
         List.filterMap_cons, List.filterMap_nil] at this ⊢
       omega
-  · exact h1.fkTables
+  · intro f hf
+    have := h1.fkTables f (by simpa [commitIndex] using hf)
+    simpa [commitIndex, tableNames] using this
+
+theorem commitIndex_lenInv {d} {s : Schema} {t nm cols isPk uniq} (h : LenInv d s)
+    (hn : ∀ p, nm = some p → p.2 = .norm → p.1.length ≤ maxNameLen d) : LenInv d (commitIndex s t nm cols isPk uniq) := by
+  have h1 := setPk_lenInv (d := d) t isPk h
+  constructor
+  · exact h1.tables
+  · intro c hc hs
+    simp only [commitIndex] at hc
+    obtain ⟨c0, h0, e1, e2, _⟩ := flagColumns_mem hc
+    rw [e1]; exact h1.columns c0 h0 (e2 ▸ hs)
+  · intro i hi n hin his
+    simp only [commitIndex, List.mem_append, List.mem_singleton] at hi
+    rcases hi with hi | rfl
+    · exact h1.indexes i hi n hin his
+    · cases nm with
+      | none => simp at hin
+      | some p =>
+        simp only [Option.map_some, Option.some.injEq, Option.getD_some] at hin his
+        subst hin
+        exact hn p rfl his
+  · exact h1.fks
+
+theorem addIndex_inv {d} {s s' : Schema} {t arg cols isPk isUnique m2m} (h : Inv s)
+    (hs : addIndex d s t arg cols isPk isUnique m2m = .ok s') : Inv s' := by
+  unfold addIndex at hs
+  split at hs; · cases hs
+  split at hs; · cases hs
+  split at hs; · cases hs
+  simp only at hs
+  split at hs
+  · split at hs
+    · cases hs; exact h
+    · split at hs <;> cases hs
+  · split at hs; · cases hs
+    split at hs; · cases hs
+    split at hs; · cases hs
+    split at hs; · cases hs
+    rename_i hnt
+    cases hs
+    apply commitIndex_inv h
+    intro x hx
+    exact nameTaken_false (by simpa using hnt) x hx
+
+theorem addIndex_lenInv {d} {s s' : Schema} {t arg cols isPk isUnique m2m} (h : LenInv d s)
+    (hs : addIndex d s t arg cols isPk isUnique m2m = .ok s') : LenInv d s' := by
+  unfold addIndex at hs
+  split at hs; · cases hs
+  split at hs; · cases hs
+  split at hs; · cases hs
+  simp only at hs
+  split at hs
+  · split at hs
+    · cases hs; exact h
+    · split at hs <;> cases hs
+  · split at hs; · cases hs
+    split at hs; · cases hs
+    split at hs; · cases hs
+    split at hs; · cases hs
+    cases hs
+    apply commitIndex_lenInv h
+    intro p hp hnorm
+    split at hp
+    · cases hp; cases hnorm
+    · split at hp
+      · cases hp
+      · cases hp; exact defaultIndexName_length ..
+
+/-! ### addFk -/
+
+theorem mem_tableNames_of_findTable {s : Schema} {n : Name} {t : Table} (h : findTable s n = some t) : n ∈ tableNames s := by
+  unfold findTable at h
+  have h1 := List.mem_of_find?_eq_some h
+  have h2 := List.find?_some h
+  simp only [tableNames, List.mem_map]
+  exact ⟨t, h1, by simpa using h2⟩
+
+theorem addFk_inv {d} {s s' : Schema} {c n cols p pc ix} (h : Inv s) (hs : addFk d s c n cols p pc ix = .ok s') : Inv s' := by
+  unfold addFk at hs
+  split at hs
+  · cases hs
+  · cases hs
+  rename_i ctbl ptbl hc hp
+  split at hs; · cases hs
+  split at hs; · cases hs
+  simp only at hs
+  split at hs; · cases hs
+  split at hs; · cases hs
+  split at hs; · cases hs
+  rename_i hnames
+  have h1 : Inv { s with names := s.names ++ [(match n with | some n => (n, Src.explicit) | none => (defaultFkName d c cols, Src.norm)).1],
+                         fks := s.fks ++ [{ table := c, name := some (match n with | some n => (n, Src.explicit) | none => (defaultFkName d c cols, Src.norm)).1,
+                                            src := (match n with | some n => (n, Src.explicit) | none => (defaultFkName d c cols, Src.norm)).2,
+                                            cols := cols, parent := p, parentCols := pc }] } := by
+    constructor
+    · exact h.tablesNodup
+    · exact h.colsNodup
+    · rw [List.nodup_append]
+      refine ⟨h.namesNodup, by simp, ?_⟩
+      intro a ha b hb
+      simp at hb; subst hb
+      intro hab; subst hab
+      exact hnames ha
+    · intro a
+      have := h.namesCount a
+      simp only [objNames, List.count_append, List.filterMap_append, List.filterMap_cons, List.filterMap_nil] at this ⊢
+      omega
+    · intro f hf
+      simp only [List.mem_append, List.mem_singleton] at hf
+      rcases hf with hf | rfl
+      · exact h.fkTables f hf
+      · exact ⟨mem_tableNames_of_findTable hc, mem_tableNames_of_findTable hp⟩
+  split at hs
+  · cases hs; exact h1
+  · split at hs
+    · exact addIndex_inv h1 hs
+    · cases hs; exact h1
+
+theorem addFk_lenInv {d} {s s' : Schema} {c n cols p pc ix} (h : LenInv d s) (hs : addFk d s c n cols p pc ix = .ok s') : LenInv d s' := by
+  unfold addFk at hs
+  split at hs
+  · cases hs
+  · cases hs
+  split at hs; · cases hs
+  split at hs; · cases hs
+  simp only at hs
+  split at hs; · cases hs
+  split at hs; · cases hs
+  split at hs; · cases hs
+  have h1 : LenInv d { s with names := s.names ++ [(match n with | some n => (n, Src.explicit) | none => (defaultFkName d c cols, Src.norm)).1],
+                         fks := s.fks ++ [{ table := c, name := some (match n with | some n => (n, Src.explicit) | none => (defaultFkName d c cols, Src.norm)).1,
+                                            src := (match n with | some n => (n, Src.explicit) | none => (defaultFkName d c cols, Src.norm)).2,
+                                            cols := cols, parent := p, parentCols := pc }] } := by
+    constructor
+    · exact h.tables
+    · exact h.columns
+    · exact h.indexes
+    · intro f hf x hx hsrc
+      simp only [List.mem_append, List.mem_singleton] at hf
+      rcases hf with hf | rfl
+      · exact h.fks f hf x hx hsrc
+      · cases n with
+        | some n => simp at hsrc
+        | none =>
+          simp only [Option.some.injEq] at hx
+          subst hx
+          exact defaultFkName_length ..
+  split at hs
+  · cases hs; exact h1
+  · split at hs
+    · exact addIndex_lenInv h1 hs
+    · cases hs; exact h1
+
+/-! ### operation lists -/
+
+theorem applyOp_inv {d} {s s' : Schema} {op : Op} (h : Inv s) (hs : applyOp d s op = .ok s') : Inv s' := by
+  cases op with
+  | addTable n e => exact addTable_inv h hs
+  | addM2mTable n =>
+    simp only [applyOp] at hs
+    cases h1 : addTable s n .explicit none with
+    | error e => simp [h1, Except.map] at hs
+    | ok s1 =>
+      simp only [h1, Except.map, Except.ok.injEq] at hs
+      subst hs
+      exact markM2m_inv _ (addTable_inv h h1)
+  | addEntity t e r =>
+    simp only [applyOp] at hs
+    split at hs
+    · exact addEntity_inv h hs
+    · cases hs
+  | addColumn t n nn => exact addColumn_inv h hs
+  | addIndex t a c p u m => exact addIndex_inv h hs
+  | addFk c n cols p pc ix => exact addFk_inv h hs
+
+theorem applyOp_lenInv {d} {s s' : Schema} {op : Op} (h : LenInv d s) (hs : applyOp d s op = .ok s') : LenInv d s' := by
+  cases op with
+  | addTable n e => exact addTable_lenInv h (by simp) hs
+  | addM2mTable n =>
+    simp only [applyOp] at hs
+    cases h1 : addTable s n .explicit none with
+    | error e => simp [h1, Except.map] at hs
+    | ok s1 =>
+      simp only [h1, Except.map, Except.ok.injEq] at hs
+      subst hs
+      exact markM2m_lenInv _ (addTable_lenInv h (by simp) h1)
+  | addEntity t e r =>
+    simp only [applyOp] at hs
+    split at hs
+    · exact addEntity_lenInv h hs
+    · cases hs
+  | addColumn t n nn => exact addColumn_lenInv h (by simp) hs
+  | addIndex t a c p u m => exact addIndex_lenInv h hs
+  | addFk c n cols p pc ix => exact addFk_lenInv h hs
+
+theorem runOps_inv {d} : ∀ {ops : List Op} {s s' : Schema}, Inv s → LenInv d s → runOps d s ops = .ok s' → Inv s' ∧ LenInv d s'
+  | [], s, s', h, hl, hs => by simp only [runOps, Except.ok.injEq] at hs; subst hs; exact ⟨h, hl⟩
+  | op :: rest, s, s', h, hl, hs => by
+    simp only [runOps] at hs
+    split at hs
+    · rename_i s1 h1
+      exact runOps_inv (applyOp_inv h h1) (applyOp_lenInv hl h1) hs
+    · cases hs
 
 end PonyVerif.Model.Schema
